@@ -917,14 +917,42 @@ func buildConnectModel(p *Prog, a *connectAnchors) *connectModel {
 				if isBrokerField(c.Args[0], a.FWg) {
 					r.Emit("wg.done")
 				}
-			case "(*log/slog.Logger).Error", "(*log/slog.Logger).Info", "(*log/slog.Logger).Warn", "(*log/slog.Logger).Debug":
-				lvl := name[strings.LastIndex(name, ".")+1:]
+			case "(*log/slog.Logger).Error", "(*log/slog.Logger).Info", "(*log/slog.Logger).Warn", "(*log/slog.Logger).Debug",
+				"(*log/slog.Logger).ErrorContext", "(*log/slog.Logger).InfoContext", "(*log/slog.Logger).WarnContext", "(*log/slog.Logger).DebugContext",
+				"(*log/slog.Logger).Log", "(*log/slog.Logger).LogAttrs":
+				lvl := strings.TrimSuffix(name[strings.LastIndex(name, ".")+1:], "Context")
+				mi := 1
+				switch {
+				case "Log" == lvl || "LogAttrs" == lvl:
+					/* Log(ctx, level, msg, …): the level is an operand. */
+					mi = 3
+					lvl = "?"
+					if len(c.Args) > 2 {
+						if k, isK := constInt(c.Args[2]); isK {
+							switch {
+							case k >= 8:
+								lvl = "Error"
+							case k >= 4:
+								lvl = "Warn"
+							case k >= 0:
+								lvl = "Info"
+							default:
+								lvl = "Debug"
+							}
+						}
+					}
+				case strings.HasSuffix(name, "Context"):
+					mi = 2
+				}
+				if mi >= len(c.Args) {
+					break
+				}
 				msg := "?"
-				s, ok := constString(c.Args[1])
+				s, ok := constString(c.Args[mi])
 				if !ok {
 					/* A message chosen earlier on this path (a table or
 					struct of the refusal's texts). */
-					if a := r.Eval(c.Args[1]); avStr == a.K && strings.HasPrefix(a.S, "const:") {
+					if a := r.Eval(c.Args[mi]); avStr == a.K && strings.HasPrefix(a.S, "const:") {
 						s, ok = strings.TrimPrefix(a.S, "const:"), true
 					}
 				}
